@@ -396,7 +396,8 @@ func partsStratum(c *Ctx, r *Report, rng *Rng) error {
 			}
 		}
 	}
-	return nil
+	// per-object certificates: the same parts read back into expression trees (reify.go)
+	return reifiedStratum(c, r, rng, parts)
 }
 
 // costScaled reduces the sample count for shapes whose Evaluate is slow (text, imported meshes).
